@@ -8,7 +8,9 @@ REGISTRY = {
     'C06': ('sim.props.c06', 'C06'),
     'C08': ('sim.props.c08', 'C08'),
     'C10': ('sim.props.c10', 'C10'),
+    'C12': ('sim.props.c12', 'C12'),
     'C13': ('sim.props.c13', 'C13'),
+    'C15': ('sim.props.c15', 'C15'),
     'C20': ('sim.props.c20', 'C20'),
 }
 
